@@ -575,10 +575,12 @@ func (b Builder) BinOp(op token.Token, x, y Expr) Expr {
 				b.InlineCall(b.Pkg.rtFunc("AssertNegativeShift"), check)
 			}
 			xsize, ysize := b.Prog.SizeOf(x.Type), b.Prog.SizeOf(y.Type)
+			// Compare the count with the operand width before narrowing it to the
+			// operand type: uint8(1) << uint16(256) is 0, not 1 << (256 & 0xff).
+			overflows := llvm.CreateICmp(b.impl, llvm.IntUGE, y.impl, llvm.ConstInt(y.ll, xsize*8, false))
 			if xsize != ysize {
 				y = b.Convert(x.Type, y)
 			}
-			overflows := llvm.CreateICmp(b.impl, llvm.IntUGE, y.impl, llvm.ConstInt(y.ll, xsize*8, false))
 			xzero := llvm.ConstInt(x.ll, 0, false)
 			if op == token.SHL {
 				rhs := llvm.CreateShl(b.impl, x.impl, y.impl)
